@@ -15,7 +15,7 @@ FOCUS = {'scan': 12, 'advance': 12, 'ack': 12, 'apply': 12, 'tick': 8, 'ready': 
 
 
 def run(res):
-    res.proof_step('Props/C05.v', extra_targets=['Model/Pool.vo', 'Model/Worker.vo'], kernels_needed=['G_pool_shape', 'K_timedout', 'K_worker'])
+    res.proof_step('Props/C05.v', extra_targets=['Model/Pool.vo', 'Model/Worker.vo'], kernels_needed=['G_pool_shape', 'K_timedout', 'K_worker', 'G_pool_pins'])
     n = 150 if res.tier == 'quick' else 6000
     if res.broken:
         n = max(n, 1500)      # failing-input search on the implementation
